@@ -98,6 +98,9 @@ structure S where
   high : Nat
   lowChunks : Nat
   highChunks : Nat
+  /-- behaviour flag (configuration, never changes): `_wait()` re-checks `self._exception` after the
+  awaited future resolved normally (present from the `fix:` commit on; probed from the source) -/
+  recheck : Bool := false
   waiter : Bool := false             -- `_waiter is not None`
   -- the consumer coroutine
   parked : Option Pend := none
@@ -115,10 +118,14 @@ structure S where
   lost : Bool := false               -- a call raised after taking bytes it never returned
 deriving DecidableEq, Repr
 
-/-- `StreamReader(protocol, limit)` -/
-def init (limit : Nat) : S :=
+/-- `StreamReader(protocol, limit)`, for either value of the `_wait` behaviour flag -/
+def initF (recheck : Bool) (limit : Nat) : S :=
   let hc := max Gen.C08.chunkFloor (limit / Gen.C08.chunkDiv)
-  { low := limit, high := limit * Gen.C08.highMul, highChunks := hc, lowChunks := hc / Gen.C08.lowDiv }
+  { low := limit, high := limit * Gen.C08.highMul, highChunks := hc, lowChunks := hc / Gen.C08.lowDiv,
+    recheck := recheck }
+
+/-- `StreamReader(protocol, limit)` of the source as it is now (flag probed on every run) -/
+def init (limit : Nat) : S := initF Gen.C08.waitRechecksException limit
 
 /-- `set_read_chunk_size(n)` -/
 def setChunk (s : S) (n : Nat) : S :=
@@ -378,6 +385,10 @@ def resume (s : S) (p : Pend) : S × Out :=
   | .pending => (s, .bad)   -- excluded by `step`
   | .exc e => raise s p.acc (.exc e)
   | .ok =>
+    -- `_wait()` after the `finally`: `if self._exception is not None: raise self._exception` (flag)
+    match (if s.recheck then s.exc else none) with
+    | some e => raise s p.acc (.exc e)
+    | none =>
     match p.kind with
     | .read n => contRead s n p.iter
     | .readAny => contReadAny s p.iter
